@@ -54,6 +54,55 @@ theorem countShapeOKV_ibResult (data : Raw) (grid : Option (List GridTag)) : Cou
         exact countShapeOKV_mkImageBatch data (g0 :: gs) hc.2.1.symm
       · exact countShapeOKV_plain data
 
+theorem countShapeOKV_mkFlowFields (t : Raw) (gs : List GridTag) (ax : Option Nat) (h1 : gs.length = t.shape.headD 0) :
+    CountShapeOKV (ofExcept (mkFlowFields t gs ax)) := by
+  have hib := countShapeOKV_mkImageBatch t gs h1
+  unfold mkFlowFields
+  cases hm : mkImageBatch t gs with
+  | error e => exact countShapeOKV_err _
+  | ok s =>
+    rw [hm] at hib
+    unfold mkImageBatch at hm
+    split at hm
+    · cases hm
+    · split at hm
+      · cases hm
+      · cases hm
+        simp only []
+        split
+        · exact countShapeOKV_err _
+        · cases ax with
+          | some a => simpa [ofExcept, CountShapeOKV, CountShapeOK] using hib
+          | none =>
+            simp only []
+            split
+            · exact countShapeOKV_err _
+            · simpa [ofExcept, CountShapeOKV, CountShapeOK] using hib
+
+/-- flow.py:FlowFields._torch_function_result (with the batch-size test of commit e158d15) -/
+theorem countShapeOKV_ffResult (data : Raw) (grid : Option (List GridTag)) (ax : Option Nat) :
+    CountShapeOKV (ffResult data grid ax) := by
+  unfold ffResult
+  cases grid with
+  | none => exact countShapeOKV_ibResult data none
+  | some gs =>
+    cases gs with
+    | nil =>
+      simp only []
+      split
+      · rename_i hc
+        exact countShapeOKV_mkFlowFields data [] ax (by rw [hc.2]; rfl)
+      · exact countShapeOKV_ibResult data (some [])
+    | cons g0 gs =>
+      cases ax with
+      | none => exact countShapeOKV_ibResult data (some (g0 :: gs))
+      | some a =>
+        simp only []
+        split
+        · rename_i hc
+          exact countShapeOKV_mkFlowFields data (g0 :: gs) (some a) hc.2.1.symm
+        · exact countShapeOKV_ibResult data (some (g0 :: gs))
+
 theorem countShapeOKV_mkImage (t : Raw) (g : GridTag) : CountShapeOKV (ofExcept (mkImage t g)) := by
   unfold mkImage
   split
@@ -153,62 +202,85 @@ theorem callArgs_mem (op : TOp) (cur : SVal) (other : Option SVal) (args : List 
     | (rw [callArgs_cat] at h; exact mapM_argSel_mem _ cur other args h)
     | (rw [callArgs_stack] at h; exact mapM_argSel_mem _ cur other args h)
 
-/-- `ImageBatch.__torch_function__` (no flow field among the arguments): every typed result is well described -/
-theorem countShapeOKV_batchTF (op : TOp) (t : Raw) (gs : List GridTag) (a : Nat) (other : Option SVal)
-    (hnf : ∀ o, other = some o → o.isFlow = false) :
-    CountShapeOKV (batchTorchFunction op (.batch false t gs a) other) := by
+/-- `ImageBatch.__torch_function__` / `FlowFields.__torch_function__`, any operation, any arguments: every typed
+    result is well described (one grid per entry, grid shape = spatial shape) -/
+theorem countShapeOKV_batchTF (op : TOp) (cur : SVal) (other : Option SVal) :
+    CountShapeOKV (batchTorchFunction op cur other) := by
+  have hone : ∀ (grid : Option GridRes) (axes : Option Nat) (d : Raw),
+      CountShapeOKV (match grid with
+        | some (.nested []) => ffResult d (some []) axes
+        | some (.nested _) => Val.err .dispatch
+        | some (.flat g) => ffResult d (some g) axes
+        | none => ffResult d none axes) := by
+    intro grid axes d
+    cases grid with
+    | none => exact countShapeOKV_ffResult _ _ _
+    | some g =>
+      cases g with
+      | flat g => exact countShapeOKV_ffResult _ _ _
+      | nested g =>
+        cases g with
+        | nil => exact countShapeOKV_ffResult _ _ _
+        | cons x xs => exact countShapeOKV_err _
   unfold batchTorchFunction
-  cases hsem : torchSem op (SVal.batch false t gs a).raw (other.map SVal.raw) with
+  cases hsem : torchSem op cur.raw (other.map SVal.raw) with
   | err => exact countShapeOKV_err _
   | t d =>
     simp only []
-    cases hargs : callArgs op (.batch false t gs a) other with
+    cases callArgs op cur other with
     | none => exact countShapeOKV_err _
     | some args =>
-      have hflow : args.any SVal.isFlow = false := by
-        rw [List.any_eq_false]
-        intro s hs
-        rcases callArgs_mem op _ other args hargs s hs with h | h
-        · rw [h]; simp [SVal.isFlow]
-        · simp [hnf s h]
-      simp only [hflow, Bool.false_eq_true, if_false]
-      apply countShapeOKV_ite _ _ _ (countShapeOKV_err _)
-      apply countShapeOKV_ite _ _ _ (countShapeOKV_err _)
-      cases torchFunctionGrid op (List.filterMap batchGrids? args) with
-      | none => exact countShapeOKV_ibResult d none
-      | some g =>
-        cases g with
-        | flat g => exact countShapeOKV_ibResult d (some g)
-        | nested g => exact countShapeOKV_err _
-  | ts ds =>
-    simp only []
-    cases hargs : callArgs op (.batch false t gs a) other with
-    | none => exact countShapeOKV_err _
-    | some args =>
-      have hflow : args.any SVal.isFlow = false := by
-        rw [List.any_eq_false]
-        intro s hs
-        rcases callArgs_mem op _ other args hargs s hs with h | h
-        · rw [h]; simp [SVal.isFlow]
-        · simp [hnf s h]
-      simp only [hflow, Bool.false_eq_true, if_false]
+      simp only []
       apply countShapeOKV_ite _ _ _ (countShapeOKV_err _)
       apply countShapeOKV_ite
-      · cases torchFunctionGrid op (List.filterMap batchGrids? args) with
-        | none => exact countShapeOKV_err _
+      · cases torchFunctionAxes args with
+        | error e => exact countShapeOKV_err _
+        | ok axes =>
+          simp only []
+          apply countShapeOKV_ite _ _ _ (countShapeOKV_err _)
+          exact hone _ _ _
+      · apply countShapeOKV_ite _ _ _ (countShapeOKV_err _)
+        cases torchFunctionGrid op (List.filterMap batchGrids? args) with
+        | none => exact countShapeOKV_ibResult d none
         | some g =>
           cases g with
-          | flat g => exact countShapeOKV_err _
-          | nested g =>
-            simp only []
-            apply countShapeOKV_ite _ _ _ (countShapeOKV_err _)
-            apply countShapeOKV_ite _ _ _ (countShapeOKV_err _)
-            apply countShapeOKV_collect
+          | flat g => exact countShapeOKV_ibResult d (some g)
+          | nested g => exact countShapeOKV_err _
+  | ts ds =>
+    simp only []
+    cases callArgs op cur other with
+    | none => exact countShapeOKV_err _
+    | some args =>
+      simp only []
+      apply countShapeOKV_ite _ _ _ (countShapeOKV_err _)
+      apply countShapeOKV_ite
+      · cases torchFunctionAxes args with
+        | error e => exact countShapeOKV_err _
+        | ok axes =>
+          simp only []
+          apply countShapeOKV_ite
+          · apply countShapeOKV_collect
             intro v hv
             rw [List.mem_map] at hv
-            obtain ⟨dg, _, rfl⟩ := hv
-            exact countShapeOKV_ibResult _ _
-      · exact countShapeOKV_many_plain ds
+            obtain ⟨d, _, rfl⟩ := hv
+            exact hone _ _ _
+          · exact countShapeOKV_many_plain ds
+      · apply countShapeOKV_ite
+        · cases torchFunctionGrid op (List.filterMap batchGrids? args) with
+          | none => exact countShapeOKV_err _
+          | some g =>
+            cases g with
+            | flat g => exact countShapeOKV_err _
+            | nested g =>
+              simp only []
+              apply countShapeOKV_ite _ _ _ (countShapeOKV_err _)
+              apply countShapeOKV_ite _ _ _ (countShapeOKV_err _)
+              apply countShapeOKV_collect
+              intro v hv
+              rw [List.mem_map] at hv
+              obtain ⟨dg, _, rfl⟩ := hv
+              exact countShapeOKV_ibResult _ _
+        · exact countShapeOKV_many_plain ds
 
 /-- `Image.__torch_function__` / `FlowField.__torch_function__`: every typed result has a grid of the data's shape -/
 theorem countShapeOKV_imageTF (op : TOp) (cur : SVal) (other : Option SVal) :
